@@ -62,4 +62,23 @@ theorem zigzagEncode_lt_pred (x p : Nat) (hx : x + 1 < 4294967296) (h0 : 0 < x) 
     · rw [if_pos h2]; omega
     · rw [if_neg h2]; omega
 
+/-- The decoder is also a right inverse where nothing wraps (`v + 2p < 2^64`): every code word is
+    the code of the value it decodes to, so the coding is canonical (one code per value). -/
+theorem zigzagEncode_decode (v p : Nat) (h : v + 2 * p < 18446744073709551616) :
+    zigzagEncode (zigzagDecode v p) p = v := by
+  have e : 2 * p % 18446744073709551616 = 2 * p := by omega
+  unfold zigzagDecode wsub wadd wdbl U64
+  rw [e]
+  by_cases h1 : v ≥ 2 * p
+  · rw [if_pos h1, zigzagEncode_eq v p (by omega) (by omega), if_neg (by omega), if_neg (by omega)]
+  · rw [if_neg h1]
+    by_cases h2 : v % 2 ≠ 0
+    · rw [if_pos h2]
+      have hx : (2 * p + 18446744073709551616 - v % 18446744073709551616) % 18446744073709551616 / 2
+          = (2 * p - v) / 2 := by omega
+      rw [hx, zigzagEncode_eq _ p (by omega) (by omega), if_pos (by omega)]; omega
+    · rw [if_neg h2]
+      have hx : (v + 2 * p) % 18446744073709551616 / 2 = v / 2 + p := by omega
+      rw [hx, zigzagEncode_eq _ p (by omega) (by omega), if_neg (by omega), if_pos (by omega)]; omega
+
 end Ragc.Zigzag
